@@ -111,9 +111,14 @@ func prctl(option uintptr, args ...uintptr) error {
 // seccomp syscall wrapper.
 func seccomp(op uintptr, flags FilterFlag, uargs unsafe.Pointer) error {
 	verifSeam(op, flags, uargs)
-	_, _, e := syscall.Syscall(unix.SYS_SECCOMP, op, uintptr(flags), uintptr(uargs))
+	r1, _, e := syscall.Syscall(unix.SYS_SECCOMP, op, uintptr(flags), uintptr(uargs))
 	if e != 0 {
 		return e
+	}
+	if r1 != 0 {
+		// With FilterFlagTSync the kernel reports a thread that could not be synchronized
+		// by returning its ID instead of an error. The filter has not been installed.
+		return fmt.Errorf("could not synchronize thread %d to the seccomp filter", r1)
 	}
 	return nil
 }
